@@ -165,7 +165,7 @@ func drawMassScript(rt *rapid.T) sess.Script {
 	sc.Steps = append(sc.Steps, sess.Step{S: 0, K: "params", P: &sess.ParamSpec{Red: 1, Persist: 1, Ack: fib}}, sess.Step{S: 0, K: "elec", ID: &id1})
 	sizes := []int{8, 13, 20, 33, 48, 63, 64, 65, 66, 100, 127, 128, 129}
 	if ev.Thorough() {
-		sizes = append(sizes, 255, 256, 257, 511, 512, 513, 1023, 1024, 1025)
+		sizes = append(sizes, 255, 256, 257, 511, 512, 513)
 	}
 	n := sizes[rapid.IntRange(0, len(sizes)-1).Draw(rt, "held")]
 	opid := uint64(0)
